@@ -1,4 +1,5 @@
-use ohmc::props::c09::{run_bfs, run_live};
+use ohmc::props::c09::{check_one_step, run_bfs, run_live};
+use ohmc_core::uni::Spec;
 use ohmc::props::laxbfs::*;
 use ohmc_core::explore::*;
 use ohmc_core::plain::*;
@@ -16,13 +17,27 @@ fn main() {
     // small model run twice (parallel and single-threaded) to show the search owns all nondeterminism
     let bs = Bounds { nodes: 2, edges: 1, pairs: 1, iface: 1, arity_s: 1, arity_t: 1, labels: 2, del_ids: 2, hyper_only: false, alphabet: Alphabet::Full };
     run_bfs(&mut ctx, "open-bfs-small[run twice]", bs.clone(), empty.clone(), 20, 2_000_000, true, true);
+    // one step from arbitrary (larger) states: three hyperedges, arity three, more nodes
+    let one: Vec<(Spec, Bounds)> = vec![
+        // 3 hyperedges over <=2 nodes, unary
+        (Spec { n_min: 2, n_max: 2, e_min: 3, e_max: 3, ks: 1, kt: 1, lw: 1, lx: 2, a: 1, b: 0, q: 0 }, Bounds { nodes: 9, edges: 9, pairs: 9, iface: 9, arity_s: 1, arity_t: 1, labels: 2, del_ids: 2, hyper_only: false, alphabet: Alphabet::Full }),
+        // one hyperedge with source lists up to length 3 (non-ascending, repeated) over <=3 nodes
+        (Spec { n_min: 2, n_max: 3, e_min: 1, e_max: 1, ks: 3, kt: 1, lw: 1, lx: 1, a: 1, b: 1, q: 1 }, Bounds { nodes: 9, edges: 9, pairs: 9, iface: 9, arity_s: 0, arity_t: 0, labels: 1, del_ids: 2, hyper_only: false, alphabet: Alphabet::Full }),
+        // four nodes, one binary hyperedge, a pending pair
+        (Spec { n_min: 4, n_max: 4, e_min: 1, e_max: 1, ks: 2, kt: 1, lw: 1, lx: 1, a: 1, b: 1, q: 1 }, Bounds { nodes: 9, edges: 9, pairs: 9, iface: 9, arity_s: 0, arity_t: 0, labels: 1, del_ids: 2, hyper_only: true, alphabet: Alphabet::Full }),
+    ];
+    for (k, (spec, bd)) in one.iter().enumerate() {
+        let u = spec.universe();
+        let cap = if quick { 60_000 } else { 2_000_000 };
+        ctx.run_slice(Slice::new(format!("one-step-from-arbitrary-states-{}[{} first {}]", k, spec.name(), cap.min(u.count())), u.count().min(cap), move |i, loc| check_one_step(bd, &u.get(i), loc)));
+    }
     // live object histories
     let bl = Bounds { nodes: 2, edges: 1, pairs: 1, iface: 1, arity_s: 1, arity_t: 1, labels: 2, del_ids: 1, hyper_only: false, alphabet: Alphabet::Full };
     run_live(&mut ctx, "open-live-histories", bl.clone(), if quick { 4 } else { 5 });
     run_live(&mut ctx, "hypergraph-live-histories", Bounds { hyper_only: true, iface: 0, ..bl }, if quick { 4 } else { 5 });
     let meta = Meta {
         rule: "breadth-first search from the empty diagram over every builder call with every argument inside the boundary: new_node, new_edge, new_operation, add_edge_source/target, unify, quotient, delete_nodes / delete_edges (id lists of length <=2 over 0..=count: valid, duplicate and one out-of-range id), map_nodes / with_nodes, map_edges / with_edges (right and wrong length), pushes onto the public interface vectors; on lax::OpenHypergraph and on lax::Hypergraph (where the deletion witness is observable); states deduplicated on exact equality; every transition compares the return value and every public field with the plain list model; at every reached state the serde_json round trip and the documented JSON shape are checked; all histories up to a fixed length are additionally replayed on one live object cloned at branch points".into(),
-        bounds: "<=3 nodes, <=1 (quick) / 2 hyperedges of arity <=2+1, <=1-2 pending pairs, interfaces <=1, 2 node labels, 2 edge labels; live histories of length 4 (quick) / 5 on <=2 nodes".into(),
+        bounds: "BFS: <=3 nodes, <=1 (quick) / 2 hyperedges of arity <=2+1, <=1-2 pending pairs, interfaces <=1, 2 node labels, 2 edge labels; live histories of length 4 (quick) / 5 on <=2 nodes; one-step slices: every action from every state with 3 unary hyperedges on <=2 nodes, with one hyperedge of arity <=3 on <=3 nodes, with 4 nodes".into(),
         assumptions: vec!["nothing is demanded of the diagram after a rejected (panicking) deletion".into(), "u8 labels".into()],
         explanation: "explicit-state model checking of the implementation: state = all public fields; transition = one real method call on a rebuilt real object; the search runs to its fixed point inside the boundary (or to the stated cap)".into(),
     };
